@@ -24,6 +24,7 @@ def check_record(chk, r, rp, inp, tol, impl):
     cells, faces, conn = impl['cells'], impl['faces'], impl['conn']
     mask = inp.mask if inp.mask is not None else [True] * inp.n
     where = '(record %d, %s)' % (r.id, r.family)
+    clu = ' cluster' if r.family.startswith('cluster') else ''
     g = inp.ngens
     d = inp.dim
     for k, f in enumerate(faces):
@@ -51,7 +52,7 @@ def check_record(chk, r, rp, inp, tol, impl):
                 chk.violation('impl-vs-oracle', 'normal of face %d is not parallel to the line between its generators %s' % (k, where), rp, key='parallel')
             mid = [(gl[i] + q[i]) / 2 for i in range(3)]
             if f.area > tol.area and abs(dot(f.normal, sub(f.centroid, mid))) > tol.pos * 10:
-                chk.violation('impl-vs-oracle', 'centroid of face %d is off the bisector plane by %s %s' % (k, fl(dot(f.normal, sub(f.centroid, mid))), where), rp, key='onplane')
+                chk.violation('impl-vs-oracle', 'centroid of face %d is off the bisector plane by %s %s' % (k, fl(dot(f.normal, sub(f.centroid, mid))), where), rp, key='onplane' + clu)
         else:
             # wall: axis aligned outward normal, centroid on that wall
             ax = max(range(3), key=lambda i: abs(f.normal[i]))
@@ -65,7 +66,7 @@ def check_record(chk, r, rp, inp, tol, impl):
                 if abs(f.centroid[ax] - other) <= tol.pos * 10:
                     chk.violation('impl-vs-oracle', 'normal %s of boundary face %d (left %d) points into the box instead of outward through the wall %s' % (fl3(f.normal), k, f.left, where), rp, key='direction')
                 else:
-                    chk.violation('impl-vs-oracle', 'centroid of boundary face %d is off the wall %s' % (k, where), rp, key='onplane' + (' gen-on-wall' if gen_on_wall(inp, f.left) else ''))
+                    chk.violation('impl-vs-oracle', 'centroid of boundary face %d is off the wall %s' % (k, where), rp, key='onplane' + (' gen-on-wall' if gen_on_wall(inp, f.left) else '') + clu)
     # closure and divergence per constructed cell
     for i, c in enumerate(cells):
         if not mask[i] or c.volume is None:
@@ -91,9 +92,9 @@ def check_record(chk, r, rp, inp, tol, impl):
             continue
         onwall = ' gen-on-wall' if gen_on_wall(inp, i) else ''
         if max(abs(x) for x in tot) > tol.area * 100:
-            chk.violation('impl-vs-oracle', 'area-weighted outward normals of cell %d sum to %s instead of 0 %s' % (i, fl3(tot), where), rp, key='closure' + onwall)
+            chk.violation('impl-vs-oracle', 'area-weighted outward normals of cell %d sum to %s instead of 0 %s' % (i, fl3(tot), where), rp, key='closure' + onwall + clu)
         if abs(div / d - c.volume) > tol.vol * 100:
-            chk.violation('impl-vs-oracle', 'divergence theorem fails for cell %d: (1/d) sum area n.(c-g) = %s, volume = %s %s' % (i, fl(div / d), fl(c.volume), where), rp, key='divergence' + onwall)
+            chk.violation('impl-vs-oracle', 'divergence theorem fails for cell %d: (1/d) sum area n.(c-g) = %s, volume = %s %s' % (i, fl(div / d), fl(c.volume), where), rp, key='divergence' + onwall + clu)
 
 
 def run(chk):
